@@ -1156,7 +1156,49 @@ DIRECTED_FORCE = {"bootimgrt_add_image": {"dek": "empty"}, "mbi_ctor": {"hmac": 
                   "hab_config": {"shared_dir": True}, "mbi_config": {"shared_cfg": True}}
 
 
+FORK_CHILD = os.path.join(os.path.dirname(os.path.abspath(__file__)), "c17_fork.py")
+
+
+def _case_forked(case, ctx):
+    """'... in the same process or in different ones': workers FORKED from one interpreter that had SPSDK imported (and, every
+    other time, had built an artifact) build independently; no self-chosen value may be shared between them (or with the parent)."""
+    base = os.path.join(ctx.workdir, f"fork{ctx.case_index}")
+    os.makedirs(base, exist_ok=True)
+    out = os.path.join(base, "fork.json")
+    try:
+        try:
+            r = subprocess.run([PY, FORK_CHILD, out, str(case["n"]), str(case["k"] % 2)], env=_child_env(ctx, "0", _child_cache(ctx)),
+                               cwd=core.VERIF_ROOT, capture_output=True, text=True, timeout=600, check=False)
+        except subprocess.TimeoutExpired as e:
+            raise core.Inconclusive("fork child hit the wall-clock watchdog (600 s)") from e
+        if r.returncode != 0 or not os.path.exists(out):
+            raise core.Inconclusive(f"fork child failed rc={r.returncode}: {r.stderr[-400:]}")
+        with open(out, encoding="utf-8") as f:
+            rec = json.load(f)
+    finally:
+        shutil.rmtree(base, ignore_errors=True)
+    if rec.get("error") or any(w.get("error") for w in rec.get("workers", [])):
+        raise core.Inconclusive(f"fork child: {(rec.get('error') or [w['error'] for w in rec['workers'] if w.get('error')][0])[-600:]}")
+    procs = ([("parent", rec["parent"])] if rec.get("parent") else []) + [(f"worker{i}", w) for i, w in enumerate(rec["workers"])]
+    ctx.count("forked_workers", len(rec["workers"]))
+    shared = []
+    for name in sorted(procs[0][1]):
+        seen: dict = {}
+        for who, vals in procs:
+            v = vals.get(name)
+            if v in seen:
+                shared.append((name, seen[v], who))
+            seen.setdefault(v, who)
+    if shared:
+        ctx.violation("secret-shared-by-forked-processes:" + shared[0][0],
+                      {"shared": [list(x) for x in shared[:12]], "workers": len(rec["workers"]), "parent_built_before_fork": bool(rec.get("parent"))})
+    else:
+        ctx.ok(["forked", case["n"], case["k"] % 2], n=len(procs), sample={"values_per_process": len(procs[0][1]), "processes": len(procs)})
+
+
 def cases(tier, seed):  # noqa: ARG001
+    for k in range(8 if tier == "thorough" else 2):
+        yield {"kind": "forked", "k": k, "n": 3}
     for i, kinds in enumerate(DIRECTED):
         yield {"kind": "directed", "k": i, "kinds": kinds, "force": DIRECTED_FORCE}
     n_hist = 600 if tier == "thorough" else 80
@@ -1536,6 +1578,8 @@ def run_case(case, ctx):
         return _run_repo_tests(case, ctx)
     if kind == "rng_stream":
         return _run_rng_stream(case, ctx)
+    if kind == "forked":
+        return _case_forked(case, ctx)
     raise core.Inconclusive(f"unknown case kind {kind}")
 
 
